@@ -26,8 +26,9 @@ import (
 
 type z9Scenario struct {
 	Name       string   `json:"name"`
-	Op         string   `json:"op"` // pull, push
+	Op         string   `json:"op"`                // pull, push
 	Present    int      `json:"present,omitempty"` // push: the registry already holds the first n layers
+	Handler    bool     `json:"handler,omitempty"` // pull through registry.Local's /api/pull handler (its retry loop around Pull)
 	Layers     []int    `json:"layers"`
 	Config     int      `json:"config"` // size of the config blob (0: none)
 	MaxStreams int      `json:"max_streams"`
@@ -218,7 +219,15 @@ func z9Body(sc z9Scenario) func() {
 					cancel()
 				})
 			}
-			err := reg.Pull(ctx, z9Name)
+			var err error
+			if sc.Handler {
+				if ZZPullVia == nil {
+					panic("C09 harness: ZZPullVia not set by main")
+				}
+				err = ZZPullVia(ctx, reg, z9Name)
+			} else {
+				err = reg.Pull(ctx, z9Name)
+			}
 			cancel()
 			mcrt.WaitIdle(false) // let stragglers of this attempt finish
 			mcrt.Observe("attempt %d: %v", attempt, z9Err(err))
@@ -246,6 +255,11 @@ func z9Body(sc z9Scenario) func() {
 		}
 	}
 }
+
+// ZZPullVia is set by the harness main (which may import server/internal/registry): it sends POST /api/pull
+// through registry.Local's handler - whose loop retries Pull on temporary errors - and returns nil iff the
+// response ends with status "success".
+var ZZPullVia func(ctx gocontext.Context, reg *Registry, name string) error
 
 func z9Err(err error) string {
 	if err == nil {
@@ -338,6 +352,8 @@ func z9Scenarios(thorough bool) []z9Scenario {
 		{Name: "chunked-cancel", Op: "pull", Layers: []int{12}, MaxStreams: 2, Cancel: true, Faulty: 1},
 		{Name: "replace-tag", Op: "pull", Layers: []int{12, 3}, MaxStreams: 1, Prior: true, Faults: []string{"500", "truncate", "flip"}, Faulty: 1},
 		{Name: "stall", Op: "pull", Layers: []int{12}, MaxStreams: 2, Faults: []string{"stall"}, Faulty: 1},
+		{Name: "handler-chunked", Op: "pull", Layers: []int{12}, MaxStreams: 2, Handler: true, Faults: []string{"500", "neterr", "truncate", "flip"}, Faulty: 1},
+		{Name: "handler-two-layers", Op: "pull", Layers: []int{3, 12}, Config: 2, MaxStreams: 1, Handler: true, Faults: []string{"500", "neterr"}, Faulty: 1},
 		{Name: "push", Op: "push", Layers: []int{3, 12}, MaxStreams: 2, Faults: []string{"500", "neterr"}},
 		{Name: "push-cancel", Op: "push", Layers: []int{3, 12}, MaxStreams: 1, Cancel: true},
 		{Name: "push-present", Op: "push", Layers: []int{3, 12}, MaxStreams: 1, Present: 1, Faults: []string{"500", "neterr"}},
@@ -387,6 +403,7 @@ func z9Sig(f string, sc z9Scenario) string {
 	}
 	s += sub
 	mech := "single-request"
+
 	for _, n := range sc.Layers {
 		if n >= 8 {
 			mech = "chunked"
